@@ -181,7 +181,7 @@ def make_queries(src, pts, d, leaf, nq):
                     q[a] = (float(hi[a]) + delta) if src.boolean() else (float(lo[a]) - delta)
         if qkind.startswith("near"):
             # a perturbation far above round-off of float64 but below single precision: a decisive near-tie
-            eps = 10.0 ** -src.integer(5, 10) * S
+            eps = 10.0 ** -src.integer(5, 10) * src.choice([S, S, ext])
             u = [src.integer(-1, 1) for _ in range(d)]
             if not any(u):
                 u[src.integer(0, d - 1)] = 1
@@ -193,11 +193,18 @@ def make_queries(src, pts, d, leaf, nq):
         elif km <= 8:
             k = src.integer(1, min(N + 3, leaf + 3))
         else:
-            k = src.choice([N + 50, 1000])
+            k = src.choice([N + 50, 1000, 2 ** 53 + 1, 2 ** 64] + ([255, 256, 257, N - 1] if N >= 257 else []))
         q_dyadic = dyadic and all(_dy(x) for x in q)
-        rk = src.choice(["zero", "free", "point", "point", "point-eps"] if N > 0 else ["zero", "free"])
+        rk = src.choice(["zero", "free", "point", "point", "point-eps", "point-rel", "huge"] if N > 0 else ["zero", "free", "huge"])
         if rk == "zero":
             r = 0.0
+        elif rk == "huge":
+            r = src.choice([1e300, float(2 ** 53), 1e30])
+        elif rk == "point-rel":
+            # within 1e-5..1e-9 (relative to the radius itself) of the distance to a data point
+            p = pts[src.integer(0, N - 1)]
+            r = math.sqrt(math.fsum((q[a] - float(p[a])) ** 2 for a in range(d)))
+            r = r * (1.0 + 10.0 ** -src.integer(5, 9) * (1 if src.boolean() else -1))
         elif rk in ("point", "point-eps"):
             p = pts[src.integer(0, N - 1)]
             if q_dyadic and rk == "point":
@@ -223,10 +230,28 @@ def make_queries(src, pts, d, leaf, nq):
                 rform = "float"
         if rform == "int" and not (float(r) == int(r) and abs(r) < 2 ** 53):
             rform = "float"
-        queries.append({"q": q, "k": int(k), "r": float(r), "qkind": qkind, "rkind": rk,
-                        "qform": src.choice(["vec", "vec", "array", "list", "tuple"]), "kform": src.choice(["int", "int", "np"]),
-                        "rform": rform, "repeat": src.integer(0, 2) == 0})
+        kform = src.choice(["int", "int", "np"]) if k < 2 ** 62 else "int"
+        qform = src.choice(["vec", "vec", "array", "list", "tuple"])
+        if all(x == int(x) and abs(x) < 2 ** 53 for x in q) and src.integer(0, 3) == 0:
+            qform = src.choice(["intlist", "intarray"])          # integer-valued positions given as integers
+        same_kr = False
+        if queries and src.boolean():
+            # same k and r (value and form) as the previous query: only the position differs
+            same_kr = True
+            k, kform, r, rform, rk = (queries[-1][x] for x in ("k", "kform", "r", "rform", "rkind"))
+        queries.append({"q": q, "k": int(k), "r": float(r), "qkind": qkind, "rkind": rk, "qform": qform, "kform": kform,
+                        "rform": rform, "repeat": src.integer(0, 2) == 0, "same_kr": same_kr})
     return queries
+
+
+def history_options(src, N, large=False):
+    """how the objects are (re)used over the case: one query buffer overwritten in place for all queries, a second / third
+    tree on the same number of points after dropping (or next to) the first one, clones of the tree"""
+    rounds = src.choice([1, 1, 1, 1, 2, 2, 3]) if N > 0 else 1
+    return {"buffer": src.choice([None, "array", "list", "vec"]),
+            "rounds": rounds,
+            "round_mode": src.choice(["drop", "drop-reuse-array", "keep"]),
+            "clone": src.choice([None, None, None, None, "copy", "deepcopy", "pickle"])}
 
 
 def spell(src, strategy):
@@ -283,8 +308,10 @@ def kd_case(draw, with_queries=True):
                     pts[(off + i) % N][a] = R
     pts, dtype, tags = place(src, pts, d, _is_int_array(pts))
     queries = make_queries(src, pts, d, leaf, draw(st.integers(1, 4))) if with_queries else []
-    return {"kind": kind, "d": d, "points": pts, "dtype": dtype, "tags": tags, "leaf": leaf, "strategy": strategy,
+    case = {"kind": kind, "d": d, "points": pts, "dtype": dtype, "tags": tags, "leaf": leaf, "strategy": strategy,
             "queries": queries, "bad_first": bool(with_queries and draw(st.integers(0, 7)) == 0)}
+    case.update(history_options(src, N))
+    return case
 
 
 def realise_large(seed, N, d, kind, leaf, strategy, nq):
@@ -302,19 +329,35 @@ def realise_large(seed, N, d, kind, leaf, strategy, nq):
     else:
         pts = rs.uniform(-1, 1, size=(N, d)).tolist()
     pts, dtype, tags = place(src, pts, d, kind == "lattice")
-    return {"kind": kind, "d": d, "points": pts, "dtype": dtype, "tags": tags + ["large"], "leaf": leaf,
+    case = {"kind": kind, "d": d, "points": pts, "dtype": dtype, "tags": tags + ["large"], "leaf": leaf,
             "strategy": spell(src, strategy), "queries": make_queries(src, pts, d, leaf, nq), "bad_first": False}
+    case.update(history_options(src, N))
+    if N > 10000:
+        case.update({"rounds": 1, "clone": None})
+    return case
 
 
 @st.composite
 def large_case(draw):
     seed = draw(st.integers(0, 2 ** 32 - 1))
-    N = draw(st.one_of(st.integers(100, 400), st.integers(1000, 5000)))
+    N = draw(st.one_of(st.integers(100, 400), st.integers(1000, 5000), st.sampled_from([255, 256, 257, 511, 512, 513])))
     d = draw(st.sampled_from([1, 2, 2, 3, 3, 4]))
     kind = draw(st.sampled_from(["uniform", "uniform", "lattice", "cluster"]))
-    leaf = draw(st.sampled_from([1, 3, 10, 10, 32]))
+    leaf = draw(st.sampled_from([1, 3, 10, 10, 32, 33, 64, 100]))
     strategy = draw(st.sampled_from(["balanced", "fast", "fast", "random"]))
     return realise_large(seed, N, d, kind, leaf, strategy, draw(st.integers(2, 4)))
+
+
+@st.composite
+def huge_case(draw):
+    """sizes around 2**16 (16-bit index / counter boundaries)"""
+    seed = draw(st.integers(0, 2 ** 32 - 1))
+    N = draw(st.sampled_from([65535, 65536, 65537]))
+    d = draw(st.sampled_from([1, 2, 3]))
+    kind = draw(st.sampled_from(["uniform", "lattice", "cluster"]))
+    leaf = draw(st.sampled_from([10, 64]))
+    strategy = draw(st.sampled_from(["balanced", "fast", "random"]))
+    return realise_large(seed, N, d, kind, leaf, strategy, 2)
 
 
 # ------------------------------------------------------------------------------------------ termination monitor
@@ -382,6 +425,8 @@ def watched_class(KDTree):
                 if Watched._mon is not None:
                     Watched._mon.observe(np.asarray(pt_idx), axis, res)
                 return res
+        Watched.__module__, Watched.__qualname__ = __name__, "WatchedKDTree"     # importable by name: pickle round trips
+        globals()["WatchedKDTree"] = Watched
         W = _WATCHED[KDTree] = Watched
     return W
 
@@ -513,38 +558,77 @@ def scribble(res):
         res[...] = -7
 
 
+def round_points(pts, rd):
+    """the point set of the rd-th tree of a case: the same rows in another order (same shape, same dtype, other answers)"""
+    N = len(pts)
+    if rd == 0 or N == 0:
+        return pts
+    if rd == 1:
+        return pts[::-1]
+    s = max(1, N // 3)
+    return pts[s:] + pts[:s]
+
+
 def run_case(case, ctx, mode):
-    import mouette as M
+    import gc
+    rounds = int(case.get("rounds", 1)) if mode == "queries" else 1
+    rmode = case.get("round_mode", "drop")
+    state = {"buffer": None, "P": None}
+    first = None
+    for rd in range(rounds):
+        pts = round_points(case["points"], rd)
+        if rd > 0:
+            ctx.label(f"trees>={rd + 1}", "round-mode=" + rmode)
+        R = one_round(case, ctx, mode, pts, rd, state, rmode)
+        if R is None:
+            return
+        if rmode == "keep":
+            if first is None:
+                first = R
+            else:
+                # two trees alive: the first one still answers for its own points
+                ctx.label("interleaved-trees")
+                if not run_queries(case, ctx, first, state, " (first tree again, after another tree was built and queried)"):
+                    return
+        else:
+            state["P"] = R["P"] if rmode == "drop-reuse-array" else None
+            R = None
+            gc.collect()
+
+
+def one_round(case, ctx, mode, pts, rd, state, rmode):
+    import copy, pickle
     from mouette.spatial import KDTree
-    d, pts, leaf, strategy = case["d"], case["points"], case["leaf"], case["strategy"]
+    d, leaf, strategy = case["d"], case["leaf"], case["strategy"]
     N = len(pts)
     dtname = case.get("dtype") or ("int64" if case.get("int_dtype") else "float64")
-    P = np.array(pts, dtype=NP_DTYPES[dtname]).reshape((N, d))
-    P0 = P.copy()
+    P0 = np.array(pts, dtype=NP_DTYPES[dtname]).reshape((N, d))
     if not np.array_equal(P0.astype(np.float64), np.array(pts, dtype=np.float64).reshape((N, d))):
         raise AssertionError(f"case coordinates are not representable in {dtname}")       # harness error: invalid case
+    if state.get("P") is not None and state["P"].shape == P0.shape:
+        P = state["P"]                  # the caller's array of the previous (dropped) tree, overwritten in place
+        P[...] = P0
+        ctx.label("point-array-overwritten-in-place")
+    else:
+        P = P0.copy()
     pts_dyadic = all(is_dyadic4(x) for p in pts for x in p)
-    distinct_pts = len({tuple(float(x) for x in p) for p in pts})
-    ctx.label("kind=" + case["kind"], f"d={d}", "strategy=" + strategy.lower(), "dtype=" + dtname,
-              "leaf<=2" if leaf <= 2 else ("leaf<=8" if leaf <= 8 else "leaf>8"))
-    ctx.label(*[t for t in case.get("tags", [])])
-    if strategy != strategy.lower():
-        ctx.label("strategy-spelled-with-capitals")
-    ctx.label("N=0" if N == 0 else ("N<=leaf" if N <= leaf else "inner-node"))
-    if N >= 1000:
-        ctx.label("N>=1000")
-    if distinct_pts < N:
-        ctx.label("duplicate-points")
-    if N > leaf and distinct_pts == 1:
-        ctx.label("identical>leaf")
-    ctx.label("dyadic-points" if pts_dyadic else "float-points")
-
-    def unchanged(what):
-        ok1 = ctx.check(P.dtype == P0.dtype and np.array_equal(P, P0), "side-effect:input", f"{what}: the caller's point array was modified")
-        tp = getattr(tree, "points", None)
-        ok2 = ctx.check(isinstance(tp, np.ndarray) and tp.shape == P0.shape and np.array_equal(tp, P0), "side-effect:tree-points",
-                        f"{what}: tree.points differs from the input")
-        return ok1 and ok2
+    if rd == 0:
+        distinct_pts = len({tuple(float(x) for x in p) for p in pts})
+        ctx.label("kind=" + case["kind"], f"d={d}", "strategy=" + strategy.lower(), "dtype=" + dtname,
+                  "leaf<=2" if leaf <= 2 else ("leaf<=8" if leaf <= 8 else ("leaf<=32" if leaf <= 32 else "leaf>32")))
+        ctx.label(*[t for t in case.get("tags", [])])
+        if strategy != strategy.lower():
+            ctx.label("strategy-spelled-with-capitals")
+        ctx.label("N=0" if N == 0 else ("N<=leaf" if N <= leaf else "inner-node"))
+        if N >= 1000:
+            ctx.label("N>=1000")
+        if N in (255, 256, 257, 511, 512, 513, 65535, 65536, 65537):
+            ctx.label(f"N={N}")
+        if distinct_pts < N:
+            ctx.label("duplicate-points")
+        if N > leaf and distinct_pts == 1:
+            ctx.label("identical>leaf")
+        ctx.label("dyadic-points" if pts_dyadic else "float-points")
 
     # ---- build under the termination monitor
     W = watched_class(KDTree)
@@ -556,18 +640,18 @@ def run_case(case, ctx, mode):
         if mode == "queries":
             # reported by sub-check 'build'; without a tree there is nothing to query
             ctx.discard("queries: build diverges (see sub-check build)")
-            return
+            return None
         ctx.fail("build:diverges", f"KDTree(N={N}, d={d}, max_leaf_size={leaf}, strategy={strategy!r}, kind={case['kind']}) "
                                    f"never terminates: {e}")
-        return
+        return None
     except BudgetExhausted:
         ctx.label("budget-exhausted")
         ctx.discard("inconclusive-budget")
-        return
+        return None
     finally:
         W._mon = None
     if not ok:
-        return
+        return None
     if mode == "build":
         ctx.nontrivial(N > leaf)
     if mon.noprogress:
@@ -579,73 +663,136 @@ def run_case(case, ctx, mode):
     nodes = getattr(tree, "nodes", None)
     if not ctx.check(isinstance(nodes, list) and len(nodes) >= 1, "build:nodes", f"tree.nodes is {type(nodes).__name__} of length "
                      f"{len(nodes) if hasattr(nodes, '__len__') else '?'}"):
-        return
+        return None
     count = [0] * N
     n_leaves = 0
+    biggest = 0
     for nd in nodes:
         if isinstance(nd, KDTree.Leaf):
             n_leaves += 1
             lst, err = as_index_list(np.asarray(nd.points).ravel(), N)
             if not ctx.check(err is None, "build:leaf-content", f"leaf {nd.id}: {err}"):
-                return
+                return None
+            biggest = max(biggest, len(lst))
             for i in lst:
                 count[i] += 1
     bad = [i for i in range(N) if count[i] != 1]
     if not ctx.check(not bad, "build:partition", f"N={N} leaf={leaf} strategy={strategy}: indices not in exactly one leaf "
                      f"(index: multiplicity) {[(i, count[i]) for i in bad[:10]]}"):
-        return
+        return None
     ctx.check(n_leaves >= 1, "build:partition", "tree has no leaf")
-    if not unchanged("after construction"):
-        return
-    inner = N > leaf
+    if biggest > 32 and n_leaves > 1:
+        ctx.label("non-root-leaf>32-points")
+    R = {"tree": tree, "P": P, "P0": P0, "pts": pts, "pts_dyadic": pts_dyadic, "dtname": dtname, "rd": rd}
+    if not points_unchanged(ctx, R, "after construction"):
+        return None
+    if mode != "queries":
+        return R
 
     # ---- a call that fails on a bad argument must not disturb the following ones
-    if mode == "queries" and case.get("bad_first"):
+    if case.get("bad_first") and rd == 0:
+        import mouette as M
         ctx.label("bad-call-first")
         for f, arg in ((tree.query, 1), (tree.query_radius, 1.0)):
             try:
                 f(M.Vec([0.0] * (d + 1)), arg)
             except Exception:
                 pass
-        if not unchanged("after a query with a point of the wrong dimension"):
-            return
+        if not points_unchanged(ctx, R, "after a query with a point of the wrong dimension"):
+            return None
 
     # ---- queries, all on the same tree object
+    if not run_queries(case, ctx, R, state, "" if rd == 0 else f" (tree #{rd + 1} of the case: same rows in another order)"):
+        return None
+
+    # ---- a copy of the tree answers like the tree
+    how = case.get("clone")
+    if how and rd == 0:
+        try:
+            clone = {"copy": copy.copy, "deepcopy": copy.deepcopy, "pickle": lambda t: pickle.loads(pickle.dumps(t))}[how](tree)
+        except Exception:
+            ctx.label("clone-failed:" + how)       # copying protocols are not part of the property: not asserted
+            clone = None
+        if clone is not None:
+            ctx.label("clone=" + how)
+            R2 = dict(R, tree=clone)
+            if not run_queries(case, ctx, R2, state, f" (on a {how} of the tree)"):
+                return None
+            if not run_queries(case, ctx, R, state, f" (on the original after querying its {how})"):
+                return None
+    return R
+
+
+def points_unchanged(ctx, R, what):
+    P, P0, tree = R["P"], R["P0"], R["tree"]
+    ok1 = ctx.check(P.dtype == P0.dtype and np.array_equal(P, P0), "side-effect:input", f"{what}: the caller's point array was modified")
+    tp = getattr(tree, "points", None)
+    ok2 = ctx.check(isinstance(tp, np.ndarray) and tp.shape == P0.shape and np.array_equal(tp, P0), "side-effect:tree-points",
+                    f"{what}: tree.points differs from the input")
+    return ok1 and ok2
+
+
+def run_queries(case, ctx, R, state, tag):
+    """all queries of the case on one tree, each answer against brute force on R['pts']; False = stop the case"""
+    import mouette as M
+    tree, pts, P0, pts_dyadic, dtname = R["tree"], R["pts"], R["P0"], R["pts_dyadic"], R["dtname"]
+    d, leaf, strategy = case["d"], case["leaf"], case["strategy"]
+    N = len(pts)
+    inner = N > leaf
+    bufmode = case.get("buffer")
     maxabs = float(np.max(np.abs(P0.astype(np.float64)))) if N else 0.0
-    for qi, Q in enumerate(case["queries"] if mode == "queries" else []):
+    for qi, Q in enumerate(case["queries"]):
         q, k, r = [float(x) for x in Q["q"]], int(Q["k"]), float(Q["r"])
-        where = f"N={N} d={d} dtype={dtname} leaf={leaf} strategy={strategy} query#{qi} q={q}"
+        where = f"N={N} d={d} dtype={dtname} leaf={leaf} strategy={strategy} query#{qi}{tag} q={q}"
         q_exact = pts_dyadic and all(is_dyadic4(x) for x in q) and \
             all(abs(q[a] - float(p[a])) <= 2 ** 20 for p in pts for a in range(d))
         r_exact = q_exact and is_dyadic4(r) and r <= 2 ** 22
         scale = max([maxabs] + [abs(x) for x in q])
         tol = REL_TOL * scale
-        ctx.label("q-" + str(Q.get("qkind")), "r-" + str(Q.get("rkind")))
-        ctx.label("knn-exact" if q_exact else "knn-tol", "radius-exact" if r_exact else "radius-tol")
-        if k > N: ctx.label("k>N")
-        elif k == N: ctx.label("k==N")
-        if k > leaf: ctx.label("k>leaf")
-        if inner and (k > 1 or r > 0):
-            ctx.nontrivial()
         qform, kform, rform = Q.get("qform", "vec"), Q.get("kform", "int"), Q.get("rform", "float")
-        ctx.label("qform=" + qform, "rform=" + rform)
-        qv = {"vec": lambda: M.Vec(q), "array": lambda: np.array(q, dtype=np.float64), "list": lambda: list(q),
-              "tuple": lambda: tuple(q)}[qform]()
+        if bufmode:
+            qform = bufmode
+        if not tag:
+            ctx.label("q-" + str(Q.get("qkind")), "r-" + str(Q.get("rkind")))
+            ctx.label("knn-exact" if q_exact else "knn-tol", "radius-exact" if r_exact else "radius-tol")
+            if k > N: ctx.label("k>N")
+            elif k == N: ctx.label("k==N")
+            if k > leaf: ctx.label("k>leaf")
+            if k >= 2 ** 53: ctx.label("k>=2**53")
+            if Q.get("same_kr"): ctx.label("same-k-and-r-as-previous-query")
+            ctx.label("qform=" + qform + ("-buffer" if bufmode else ""), "rform=" + rform)
+            if inner and (k > 1 or r > 0):
+                ctx.nontrivial()
+        if bufmode:
+            # one query buffer per case, overwritten in place before every call (also across the trees of the case)
+            buf = state.get("buffer")
+            if buf is None:
+                buf = state["buffer"] = {"array": lambda: np.zeros(d), "list": lambda: [0.0] * d,
+                                         "vec": lambda: M.Vec(np.zeros(d))}[bufmode]()
+            buf[:] = q
+            qv = buf
+        else:
+            qv = {"vec": lambda: M.Vec(q), "array": lambda: np.array(q, dtype=np.float64), "list": lambda: list(q),
+                  "tuple": lambda: tuple(q), "intlist": lambda: [int(x) for x in q],
+                  "intarray": lambda: np.array([int(x) for x in q], dtype=np.int64)}[qform]()
         kv = np.int64(k) if kform == "np" else k
         rv = {"float": lambda: r, "np64": lambda: np.float64(r), "np32": lambda: np.float32(r), "int": lambda: int(r)}[rform]()
         if float(rv) != r:
             raise AssertionError(f"case radius {r!r} is not representable as {rform}")
 
         def q_unchanged(what):
-            same = (list(qv) == q and type(qv) in (list, tuple)) if qform in ("list", "tuple") else \
-                (isinstance(qv, np.ndarray) and qv.dtype == np.float64 and qv.shape == (d,) and qv.tolist() == q)
+            if qform in ("list", "tuple", "intlist"):
+                same = type(qv) in (list, tuple) and list(qv) == q and all(type(x) is (int if qform == "intlist" else float) for x in qv)
+            else:
+                same = isinstance(qv, np.ndarray) and qv.dtype == (np.int64 if qform == "intarray" else np.float64) \
+                    and qv.shape == (d,) and qv.tolist() == q
             return ctx.check(same, "side-effect:query-point", f"{where}: the query point object was modified by {what}: {qv!r}") \
-                and unchanged(what)
+                and points_unchanged(ctx, R, what)
 
         D_exact = exact_d2(pts, q) if q_exact else None
         D_float = float_dist(pts, q) if not (q_exact and r_exact) else None
         reps = 2 if Q.get("repeat") else 1
-        if reps == 2:
+        if reps == 2 and not tag:
             ctx.label("repeated-after-overwriting-result")
 
         # kNN
@@ -655,7 +802,7 @@ def run_case(case, ctx, mode):
                 break
             knn_oracle(ctx, res, D_exact if q_exact else D_float, k, N, q_exact, tol, where + (" (repeated call)" if rep else ""))
             if not q_unchanged(f"query(k={k})"):
-                return
+                return False
             scribble(res)
 
         # radius
@@ -665,14 +812,16 @@ def run_case(case, ctx, mode):
                 break
             radius_oracle(ctx, res, D_exact if r_exact else D_float, r, N, r_exact, tol, where + (" (repeated call)" if rep else ""))
             if not q_unchanged(f"query_radius(r={r})"):
-                return
+                return False
             scribble(res)
+    return True
 
 
 SUBCHECKS = [
     SubCheck("queries", kd_case(True), fn_queries, quick=7000, thorough=24000),
     SubCheck("build", kd_case(False), fn_build, quick=3000, thorough=10000),
     SubCheck("large", large_case(), fn_queries, quick=16, thorough=60),
+    SubCheck("huge", huge_case(), fn_queries, quick=8, thorough=2, watchdog=(90, 300)),
 ]
 
 MATCHERS = {}
